@@ -4,6 +4,7 @@ import (
 	"encoding/binary"
 	"encoding/json"
 	"fmt"
+	"sync"
 	"time"
 
 	"github.com/dgraph-io/badger/v4"
@@ -16,14 +17,18 @@ import (
 
 type CompactionWorker struct {
 	bs      store.BadgerStore
+	dsm     *server.DsManager
 	logger  *zap.SugaredLogger
 	running bool
+	// writeLock is the write lock of the dataset being compacted
+	writeLock sync.Locker
 }
 
 func NewCompactor(store *server.Store, dsm *server.DsManager, logger *zap.SugaredLogger) *CompactionWorker {
 	bs := server.NewBadgerAccess(store, dsm)
 	return &CompactionWorker{
 		bs:     bs,
+		dsm:    dsm,
 		logger: logger.Named("compaction-worker"),
 	}
 }
@@ -51,6 +56,14 @@ func (c *CompactionWorker) compact(datasetID string, strategy CompactionStrategy
 	dsId, b := c.bs.LookupDatasetID(datasetID)
 	if !b {
 		return fmt.Errorf("dataset %s not found", datasetID)
+	}
+	// flushes are applied under the write lock of the dataset, so that they do not interleave with a
+	// batch being written to it
+	c.writeLock = nil
+	if c.dsm != nil {
+		if ds := c.dsm.GetDataset(datasetID); ds != nil {
+			c.writeLock = &ds.WriteLock
+		}
 	}
 	txn := c.bs.GetDB().NewTransaction(false)
 	defer txn.Discard()
@@ -86,7 +99,7 @@ func (c *CompactionWorker) compact(datasetID string, strategy CompactionStrategy
 		}
 
 	}
-	_, err := flushDeletes(c.bs, ops, true, strategy)
+	_, err := flushDeletes(c.bs, ops, true, strategy, c.writeLock)
 	if err != nil {
 		return err
 	}
@@ -120,7 +133,7 @@ func (c *CompactionWorker) forEntity(dsId types.InternalDatasetID, internalEntit
 		}
 		ops.append(instr)
 
-		reset, err4 := flushDeletes(c.bs, ops, false, strategy)
+		reset, err4 := flushDeletes(c.bs, ops, false, strategy, c.writeLock)
 		if reset {
 			ops.reset()
 		}
@@ -155,9 +168,19 @@ func (c *CompactionWorker) forEntity(dsId types.InternalDatasetID, internalEntit
 }
 
 // for efficiency, we flush deletes in batches
-func flushDeletes(bs store.BadgerStore, ops *compactionInstruction, finalFlush bool, strategy CompactionStrategy) (bool, error) {
+func flushDeletes(
+	bs store.BadgerStore,
+	ops *compactionInstruction,
+	finalFlush bool,
+	strategy CompactionStrategy,
+	writeLock sync.Locker,
+) (bool, error) {
 	if !finalFlush && len(ops.DeleteKeys) < strategy.flushThreshold() {
 		return false, nil
+	}
+	if writeLock != nil {
+		writeLock.Lock()
+		defer writeLock.Unlock()
 	}
 	err := bs.GetDB().Update(func(txn *badger.Txn) error {
 		bufferedKeys, err := strategy.flush(txn)
@@ -180,7 +203,23 @@ func flushDeletes(bs store.BadgerStore, ops *compactionInstruction, finalFlush b
 			}
 		}
 		// fmt.Println("deleted", len(all), "keys")
+		removed := make(map[string]bool, len(all))
+		for _, key := range all {
+			removed[string(key)] = true
+		}
 		for i, key := range ops.RewriteKeys {
+			// the latest-version pointer is moved back only if it still points at a version that is
+			// removed here. A batch written after the compaction took its snapshot has moved it on to
+			// a newer version, which has to stay the latest one
+			if item, getErr := txn.Get(key); getErr == nil {
+				current, valErr := item.ValueCopy(nil)
+				if valErr != nil {
+					return valErr
+				}
+				if !removed[string(current)] {
+					continue
+				}
+			}
 			err2 := txn.Set(key, ops.RewriteValues[i])
 			if err2 != nil {
 				return err2
